@@ -110,6 +110,7 @@ Definition SITE_NOLAN_ADD : N := 7.        (* nolan_in += amount / collected += 
 Definition SITE_PAY_SUM : N := 8.          (* payments.iter().sum() *)
 Definition SITE_REQ_ADD : N := 9.          (* total_payment + with_fee *)
 Definition SITE_PENDING_ASSERT : N := 10.  (* add_to_pending asserts / unwraps *)
+Definition SITE_SNAPSHOT_ASSERT : N := 11. (* update_from_balance_snapshot: assert_ne!(utxoset_key, [0; 59]) *)
 
 Definition add64 (dbg : bool) (site a b : N) : res N :=
   if a + b <? W64 then Ok (a + b)
@@ -418,6 +419,27 @@ Definition create_staking (dbg : bool) (w : wallet) (sorder uorder : list key)
         Some (mkBT (cap255 (map slip_of_key sel1))
                    (index_from 0 (cap255 (stake_outputs (w_pk w) amount collected false))))).
 
+(* ---- update_from_balance_snapshot / reset ----
+   The snapshot replaces slips, unspent_slips and the balance (staking_slips and
+   pending_txs are NOT cleared by the code); every slip of the snapshot, whatever its
+   type, becomes an unspent slip keyed by its CACHED key; `slips.insert` replaces the
+   entry of a key that occurs twice and only the first occurrence is counted. *)
+Definition snap_insert (dbg : bool) (w : wallet) (s : slip) : res wallet :=
+  let k := s_key s in
+  if key_eqb k zero_key then Panic SITE_SNAPSHOT_ASSERT else
+  let x := mkWS k (s_amt s) (s_bid s) (s_txo s) true (s_idx s) false (s_ty s) in
+  if mhas k (w_slips w) then
+    Ok (mkW (w_pk w) (mset k x (w_slips w)) (w_unspent w) (w_staking w) (w_balance w) (w_pending w))
+  else
+    do b <- add64 dbg SITE_BAL_ADD (w_balance w) (s_amt s);
+    Ok (mkW (w_pk w) (mset k x (w_slips w)) (kinsert k (w_unspent w)) (w_staking w) b (w_pending w)).
+
+Definition update_from_snapshot (dbg : bool) (w : wallet) (l : list slip) : res wallet :=
+  fold_res (snap_insert dbg) (mkW (w_pk w) [] [] (w_staking w) 0 (w_pending w)) l.
+
+(* Wallet::reset with keep_keys = true *)
+Definition reset (w : wallet) : wallet := mkW (w_pk w) [] [] [] 0 [].
+
 (* ---- operations ---- *)
 Inductive op :=
 | OAddSlip (bid txi : N) (s : slip) (lc : bool)
@@ -428,7 +450,9 @@ Inductive op :=
 | ODeleteBlock (b : block)
 | OCreate (order : list key) (keys payments : list N) (fee latest gp : N)
 | OStake (sorder uorder : list key) (amount unlocked lastvalid : N)
-| OPending (first_from_pk : option N) (is_gt : bool) (h : option N).
+| OPending (first_from_pk : option N) (is_gt : bool) (h : option N)
+| OSnapshot (l : list slip)
+| OReset.
 
 (* [order] enumerates the set [l] *)
 Fixpoint knodup (l : list key) : bool :=
@@ -460,6 +484,8 @@ Definition step (dbg : bool) (w : wallet) (o : op) : res (wallet * out) :=
         Ok (fst r, OutStake (snd r))
       else Err
   | OPending p g h => do w' <- add_to_pending w p g h; Ok (w', NoOut)
+  | OSnapshot l => do w' <- update_from_snapshot dbg w l; Ok (w', NoOut)
+  | OReset => Ok (reset w, NoOut)
   end.
 
 Fixpoint run (dbg : bool) (w : wallet) (ops : list op) : res wallet :=
